@@ -187,9 +187,13 @@ def reduce_whitespace(txt):
     new_txt = ''
     while txt != new_txt:
         new_txt = txt
-        txt = re.sub(r' +', ' ', txt)
-        txt = re.sub(r'\t+', ' ', txt)
+        # Any run of blanks (spaces, tabs, non-breaking and other Unicode
+        # spaces -- anything but a linebreak) becomes a single space.
+        txt = re.sub(r'[^\S\r\n]+', ' ', txt)
         txt = re.sub(r'\r', '\n', txt)
+        # No blank at the end of a line (otherwise runs that alternate
+        # blanks and linebreaks would never be reduced).
+        txt = re.sub(r' \n', '\n', txt)
         txt = re.sub(r'\n{2,}', '\n\n', txt)
         txt = re.sub(r'^[ \t]', '', txt)
     return txt
